@@ -4,6 +4,7 @@ the carried columns) composed on two sources that agree up to row order.
 -/
 import Reamber.Props.C08
 import Reamber.Spec.Perm
+import Reamber.Lemmas.Perm
 
 namespace Reamber.PermInv
 open Reamber.Convert
@@ -56,5 +57,83 @@ theorem contentOk_perm {k : Int} {m m' : SrcMap} {t t' : TChart} (h : contentOk 
         exact hrel ("bpms", keysBpms) (by simp) rs rs' (by simp [rowsOfList, eb, e]) (by simp [rowsOfList, eb', e'])
     · cases h'
   · cases h
+
+/-! ### a row permutation of a column-oriented frame -/
+
+open Reamber.Timing (IsPerm)
+
+/-- a column re-ordered by the index list `σ` -/
+def permCol (σ : List Nat) (c : List Convert.Cell) : List Convert.Cell := σ.map fun i => c.getD i .nan
+
+/-- `g` is `f` with its rows re-ordered by `σ` (every column alike); the row labels of `g` are arbitrary -/
+def RowPermOf (σ : List Nat) (f g : Frame) : Prop :=
+  IsPerm σ ∧ σ.length = f.nrows ∧ g.nrows = f.nrows ∧ g.cols = f.cols.map fun p => (p.1, permCol σ p.2)
+
+theorem lookup_map_snd {β γ} (g : β → γ) (k : String) :
+    ∀ (l : List (String × β)), (l.map fun p => (p.1, g p.2)).lookup k = (l.lookup k).map g
+  | [] => rfl
+  | (a, b) :: t => by
+    simp only [List.map_cons, List.lookup_cons]
+    by_cases h : k == a
+    · simp [h]
+    · simp [h, lookup_map_snd g k t]
+
+theorem colsOf_rowPerm {σ : List Nat} {f g : Frame} (h : RowPermOf σ f g) :
+    ∀ ks, colsOf g ks = (colsOf f ks).map (·.map (permCol σ))
+  | [] => rfl
+  | k :: t => by
+    have hc : g.col? k = (f.col? k).map (permCol σ) := by
+      unfold Frame.col?
+      rw [h.2.2.2]
+      exact lookup_map_snd (permCol σ) k f.cols
+    simp only [colsOf, hc, colsOf_rowPerm h t]
+    cases f.col? k <;> cases colsOf f t <;> simp
+
+theorem rowsOf_permCol (σ : List Nat) (cols : List (List Convert.Cell)) :
+    rowsOf (cols.map (permCol σ)) σ.length = σ.map fun j => cols.map fun c => c.getD j .nan := by
+  unfold rowsOf
+  apply List.ext_getElem
+  · simp
+  · intro i h1 h2
+    have hi : i < σ.length := by simpa using h1
+    simp only [List.getElem_map, List.getElem_range, List.map_map, Function.comp_def, permCol]
+    apply List.map_congr_left
+    intro c _
+    simp [List.getD_eq_getElem?_getD, List.getElem?_map, List.getElem?_eq_getElem hi]
+
+/-- **the projection lemma**: the rows of a row-permuted frame over any columns are a permutation of the rows
+of the original over those columns -/
+theorem projRows_rowPerm {σ : List Nat} {f g : Frame} (h : RowPermOf σ f g) (ks : List String) :
+    ∀ rs rs', projRows f ks = some rs → projRows g ks = some rs' → rs.Perm rs' := by
+  intro rs rs' e e'
+  unfold projRows at e e'
+  rw [colsOf_rowPerm h ks] at e'
+  cases hc : colsOf f ks with
+  | none => simp [hc] at e
+  | some cols =>
+    simp only [hc, Option.map_some, Option.some.injEq] at e e'
+    subst e; subst e'
+    rw [h.2.2.1, ← h.2.1, rowsOf_permCol]
+    unfold rowsOf
+    exact (List.Perm.map _ h.1).symm
+
+/-- every list of `m'` is the list of `m` of that name with its rows re-ordered (each list by its own permutation),
+under any row labels; the map-level attributes play no role for the content -/
+def SrcRowPerm (m m' : SrcMap) : Prop :=
+  m.lists.map (·.1) = m'.lists.map (·.1) ∧
+  ∀ k f f', m.lists.lookup k = some f → m'.lists.lookup k = some f' → ∃ σ, RowPermOf σ f f'
+
+theorem srcKeyPerm_of_rowPerm {m m' : SrcMap} (h : SrcRowPerm m m') : SrcKeyPerm m m' := by
+  intro p _ rs rs' e e'
+  unfold rowsOfList at e e'
+  cases hf : m.lists.lookup p.1 with
+  | none => simp [hf] at e
+  | some f =>
+    cases hf' : m'.lists.lookup p.1 with
+    | none => simp [hf'] at e'
+    | some f' =>
+      simp only [hf, hf', Option.bind_some] at e e'
+      obtain ⟨σ, hσ⟩ := h.2 p.1 f f' hf hf'
+      exact projRows_rowPerm hσ p.2 rs rs' e e'
 
 end Reamber.PermInv
